@@ -87,7 +87,7 @@ class Ptr:
         self.obj = obj; self.path = tuple(path)
     def __eq__(self, o): return isinstance(o, Ptr) and self.obj is o.obj and self.path == o.path
     def __ne__(self, o): return not self.__eq__(o)
-    def __hash__(self): return hash((id(self.obj), self.path))
+    def __hash__(self): return hash((self.obj.id, self.path))
     def __repr__(self):
         return '&' + self.obj.label + ''.join('[%d]' % p if isinstance(p, int) else '.' + p for p in self.path)
 
